@@ -53,6 +53,9 @@ CONFS = {
     'warn': 'BeartypeConf(warning_cls_on_decorator_exception=BeartypeClawDecorWarning)',
     'tower': 'BeartypeConf(is_pep484_tower=True)',
     'warn+tower': 'BeartypeConf(warning_cls_on_decorator_exception=BeartypeClawDecorWarning, is_pep484_tower=True)',
+    # two steps: the no-op strategy first, the default decoration afterwards (whatever the first step leaves behind must be
+    # the same on the class route and on the member route)
+    'O0-then-default': 'BeartypeConf(strategy=BeartypeStrategy.O0)',
 }
 NESTED = {
     'nest1': 1, 'nest2': 2, 'nest3': 3,
@@ -84,14 +87,16 @@ def class_source(members, variant, base, dataclass, in_function, nest):
             inner = f'class N{lvl}:\n' + indent((meths if lvl != nest else '') + inner, 1) if lvl != nest else f'class N{lvl}:\n' + indent(inner, 1)
         body += inner
     head = ''
-    if base:
+    if base == 'falsy':
+        head += 'class FalsyMeta(type):\n    def __bool__(cls):\n        return False\n    def __len__(cls):\n        return 0\n'
+    elif base:
         head += 'class Base:\n    def inherited(self, x: int) -> int:\n        return x\n    def __init__(self, v=1):\n        self._v = v\n'
-    cls = ('@bt\n' if variant == 'CLASSSRC' else '') + ('@dataclass\n' if dataclass else '') + f'class Outer{"(Base)" if base else ""}:\n' + indent(body, 1)
+    cls = ('@bt\n' if variant == 'CLASSSRC' else '') + ('@dataclass\n' if dataclass else '') + f'class Outer{"(metaclass=FalsyMeta)" if base == "falsy" else "(Base)" if base else ""}:\n' + indent(body, 1)
     src = 'class Local:\n    pass\n' + head + cls
     if in_function:
-        src = 'def factory():\n' + indent(src + 'return Outer, Local, ' + ('Base' if base else 'None') + '\n', 1) + 'Outer, LocalRef, Base = factory()\n'
+        src = 'def factory():\n' + indent(src + 'return Outer, Local, ' + ('Base' if base and base != 'falsy' else 'None') + '\n', 1) + 'Outer, LocalRef, Base = factory()\n'
     else:
-        src += 'LocalRef = Local\nBase = ' + ('Base' if base else 'None') + '\n'
+        src += 'LocalRef = Local\nBase = ' + ('Base' if base and base != 'falsy' else 'None') + '\n'
     return src
 
 
@@ -102,6 +107,8 @@ PRELUDE = ('import functools\nfrom dataclasses import dataclass\nfrom typing imp
 
 def conf_prelude(conf):
     c = CONFS[conf]
+    if conf == 'O0-then-default':
+        return f'from beartype import BeartypeStrategy\nCONF = {c}\nbt0 = beartype(conf=CONF)\nbt = lambda o: beartype(bt0(o))\n'
     return 'bt = beartype\n' if c is None else f'CONF = {c}\nbt = beartype(conf=CONF)\n'
 
 
@@ -179,7 +186,7 @@ def observe_calls(ns, members, nest):
 def check_program(prog, part):
     members, base, dataclass, in_function, nest, conf = prog
     viol, cov = part['violations'], part['cover']
-    key = f'{"+".join(members)}{"+base" if base else ""}{"+dc" if dataclass else ""}{"+infn" if in_function else ""}{"+nest%d" % nest if nest else ""}{"@" + conf if conf != "default" else ""}'
+    key = f'{"+".join(members)}{"+falsymeta" if base == "falsy" else "+base" if base else ""}{"+dc" if dataclass else ""}{"+infn" if in_function else ""}{"+nest%d" % nest if nest else ""}{"@" + conf if conf != "default" else ""}'
     k = cov['states']
     srcs = {v: class_source(members, v, base, dataclass, in_function, nest) for v in ('PLAIN', 'CLASS', 'CLASSSRC', 'MEMBER')}
     rep = {'program': key, 'source_member_variant': PRELUDE + conf_prelude(conf) + srcs['MEMBER']}
@@ -189,7 +196,7 @@ def check_program(prog, part):
             P = build(srcs['PLAIN'], f'c13_plain_{k}', conf)
             C = build(srcs['CLASS'], f'c13_class_{k}', conf)
             before = dict(C['Outer'].__dict__)
-            base_before = dict(C['Base'].__dict__) if base else None
+            base_before = dict(C['Base'].__dict__) if base and base != 'falsy' else None
             nested_before = {}
             c = C['Outer']
             for lvl in range(1, nest + 1):
@@ -207,12 +214,16 @@ def check_program(prog, part):
             return
         cov['evaluations'] += 1
         if ret is not C['Outer']:
-            viol.append((f'class-identity:{key}', 'beartype(C) is not C', rep))
+            viol.append((f'class-identity:{key}', f'beartype(C) is not C (returned {ret!r})', rep))
+            return
         # call-for-call equivalence: @beartype written on the outermost class (where it is defined) vs on every member
         try:
             CS = build(srcs['CLASSSRC'], f'c13_classsrc_{k}', conf)
         except Exception as e:
             viol.append((f'class-decorate-in-source:{type(e).__name__}:{key}', f'@beartype on the class raised {type(e).__name__}: {str(e)[:200]}', rep))
+            return
+        if not isinstance(CS['Outer'], type):
+            viol.append((f'class-identity-in-source:{key}', f'@beartype on the class statement bound the name to {CS["Outer"]!r}, not to the class', rep))
             return
         oc, om = observe_calls(CS, members, nest), observe_calls(M, members, nest)
         if not in_function:
@@ -226,7 +237,7 @@ def check_program(prog, part):
             viol.append((f'class-vs-members:{key}', f'decorating the class and decorating each member differ: (class route, member route) = {diff}', rep))
         # every member with checkable annotations rejects its bad argument (the wrapper really checks: this is what
         # "decorating each function, classmethod, staticmethod and property" means), on both routes
-        for route, obs in (('class', oc), ('member', om)):
+        for route, obs in ((('class', oc), ('member', om)) if conf != 'O0-then-default' else ()):
             for (m, how, argsrc, res) in obs:
                 if m in MEMBERS and m not in NEVER_REJECT and m != 'tower' and (m, how) != ('prop_sd_unann_get', 'getattr') and \
                         any(argsrc == bad for (_h, _a, _g, bad) in MEMBERS[m][1] if _h == how) and not res.startswith('viol:'):
@@ -244,7 +255,7 @@ def check_program(prog, part):
                 if f1 is f0:
                     # left undecorated: only the documented identity cases (unannotated, @no_type_check) and members
                     # whose decoration failed with the configured warning may stay as they are
-                    if getattr(f0, '__annotations__', None) and not getattr(f0, '__no_type_check__', False) and name != 'badhint':
+                    if getattr(f0, '__annotations__', None) and not getattr(f0, '__no_type_check__', False) and name != 'badhint' and conf != 'O0-then-default':
                         viol.append((f'not-wrapped:{name}:{f0.__name__}', f'{key}: annotated function {f0.__qualname__} behind class attribute {name} was left undecorated', rep))
                     continue
                 if getattr(f1, '__wrapped__', None) is not f0:
@@ -264,7 +275,7 @@ def check_program(prog, part):
             wm = [hasattr(f, '__wrapped__') for f in unwrap_descr(M['Outer'].__dict__.get(name))]
             if name != 'wrapped' and not name.startswith('__') and wc != wm:      # (dataclass-generated methods have no member route)
                 viol.append((f'wrapped-status:{name}', f'{key}: functions behind {name} wrapped on the class route {wc}, on the member route {wm}', rep))
-        if base:
+        if base and base != 'falsy':
             base_after = {k: v for k, v in C['Base'].__dict__.items() if k != '__annotations__'}     # CPython creates it lazily on read
             base_before.pop('__annotations__', None)
             if base_after != base_before or C['Outer'].inherited is not C['Base'].inherited or 'inherited' in after:
@@ -298,8 +309,20 @@ def conf_programs(tier):
     """the configuration axis: every member alone under every configuration; an undecoratable member before and after
     every other member under the warn-instead-of-raise configurations (what the import hook uses)"""
     out = []
+    # a class that is falsy (metaclass __bool__ / __len__): beartype(cls) must still decorate and return it
+    for m in ('plain', 'cm', 'prop', 'sm'):
+        out.append(((m,), 'falsy', False, False, 0, 'default'))
+        out.append(((m, 'plain_ret'), 'falsy', False, False, 1, 'default'))
+    out.append((('plain',), 'falsy', False, False, 0, 'tower'))
     for conf in CONFS:
         if conf == 'default':
+            continue
+        if conf == 'O0-then-default':
+            for m in MEMBERS:
+                if m not in ('badhint', 'strhint'):
+                    out.append(((m,), False, False, False, 0, conf))
+            out.append((('plain', 'cm', 'sm'), True, False, False, 0, conf))
+            out.append((('plain',), False, False, False, 2, conf))
             continue
         for m in MEMBERS:
             if m == 'badhint' and 'warn' not in conf:
